@@ -20,7 +20,7 @@ ASSUMPTIONS = c02.ASSUMPTIONS[:3] + [
     'the reference classifier is written from the property statement (gone > released > deletion > creation > resume > no-op > update)',
     'essence for the reference = body minus status and system metadata, keeping labels and ordinary annotations',
 ]
-BUDGET = {'quick': 40, 'thorough': 1000}
+BUDGET = {'quick': 120, 'thorough': 1000}
 FIN = cl.FINALIZER
 
 
